@@ -206,10 +206,10 @@ def axes(ctx, col):
     ok = any(isinstance(n, ast.Call) and norm_src(n.func) == "metadata.setdefault" and norm_src(n.args[0]) == "'axes'"
              and norm_src(n.args[1]) == "axes" for n in own_nodes(d)) and \
         any(isinstance(n, ast.Call) and norm_src(n.func) == "kwargs.update" and kwarg(n, "metadata") is not None for n in own_nodes(d))
-    col.check(ok, "R-AXES", d.qualname, d.loc(), "the axes string is recorded in the file's metadata", "", "axes are not put into metadata", stmt="metadata")
+    col.shape(ok, "R-AXES", d.qualname, d.loc(), "the axes string is recorded in the file's metadata", "", "axes are not put into metadata", stmt="metadata")
     ok = any(isinstance(n, ast.If) and norm_src(n.test) == "data.ndim == 3" and
              norm_src(n.body[0]) == "data = np.expand_dims(data, -1)" for n in own_nodes(d))
-    col.check(ok, "R-AXES", d.qualname, d.loc(), "3-D input gets a trailing channel axis", "", "3-D arm is not expand_dims(data, -1)", stmt="channel")
+    col.shape(ok, "R-AXES", d.qualname, d.loc(), "3-D input gets a trailing channel axis", "", "3-D arm is not expand_dims(data, -1)", stmt="channel")
     # reader
     m = repo.get_module(IO)
     tbl = m.bindings.get("AXES_ORDER")
@@ -220,7 +220,7 @@ def axes(ctx, col):
     r = repo.get_def(f"{IO}.TiffImageStack.__init__")
     src = norm_src(r.node)
     ok = "orders = [AXES_ORDER[c] for c in axes]" in src and "imgs = imgs.transpose(np.argsort(orders))" in src
-    col.check(ok, "R-AXES", r.qualname, r.loc(), "reader reorders by argsort of the table positions of the file's axes", "",
+    col.shape(ok, "R-AXES", r.qualname, r.loc(), "reader reorders by argsort of the table positions of the file's axes", "",
               "reader does not transpose(argsort([AXES_ORDER[c] for c in axes]))", stmt="reader")
     if isinstance(table, dict) and all(c in table for c in declared):
         orders = [table[c] for c in declared]
@@ -229,20 +229,20 @@ def axes(ctx, col):
         col.check(back == CANON, "R-AXES", r.qualname, r.loc(), "reader maps the writer's axes string back to (X,Y,Z,C)",
                   f"{declared} -> {back}", f"{declared} is read back as {back}", stmt="roundtrip")
     ok = 'axes = "ZXYC" if imgs.ndim == 4 else "ZXY"'.replace('"', "'") in src.replace('"', "'")
-    col.check(ok, "R-AXES", r.qualname, r.loc(), "files without usable axes metadata are taken as ZXY(C), the writer's layout", "",
+    col.shape(ok, "R-AXES", r.qualname, r.loc(), "files without usable axes metadata are taken as ZXY(C), the writer's layout", "",
               "fallback axes differ from the writer's layout", stmt="fallback")
     # rasteriser frame layout
     t = repo.get_def("swcgeom.transforms.image_stack.ToImageStack.__call__")
     ok = norm_src(t.node.body[-1]) == "return np.stack(list(self.transform(x, verbose=False)), axis=0)"
-    col.check(ok, "R-AXES", t.qualname, t.loc(), "rasterised frames (one per z) are stacked along axis 0: (Z, X, Y)", "",
+    col.shape(ok, "R-AXES", t.qualname, t.loc(), "rasterised frames (one per z) are stacked along axis 0: (Z, X, Y)", "",
               "frames are not stacked along axis 0", stmt="stack")
     s = repo.get_def("swcgeom.transforms.image_stack.ToImageStack.save_tif")
     ok = any(isinstance(n, ast.Dict) and any(isinstance(k, ast.Constant) and k.value == "axes" and
                                               isinstance(v, ast.Constant) and v.value == "ZXY" for k, v in zip(n.keys, n.values))
              for n in own_nodes(s))
-    col.check(ok, "R-AXES", s.qualname, s.loc(), "frame-wise writer labels the file ZXY", "", "axes label is not ZXY", stmt="save_tif")
+    col.shape(ok, "R-AXES", s.qualname, s.loc(), "frame-wise writer labels the file ZXY", "", "axes label is not ZXY", stmt="save_tif")
     g = repo.get_def("swcgeom.transforms.image_stack.ToImageStack._get_samplers")
     src = norm_src(g.node)
     ok = "offset = offset or stride / 2" in src and "_tp3f(coord_min + offset)" in src
-    col.check(ok, "R-AXES", g.qualname, g.loc(), "samples are taken at voxel centres (half a voxel from the lower corner)", "",
+    col.shape(ok, "R-AXES", g.qualname, g.loc(), "samples are taken at voxel centres (half a voxel from the lower corner)", "",
               "sampling offset is not stride / 2 from coord_min", stmt="half-voxel")
